@@ -2443,8 +2443,12 @@ class FileSet:
             )
 
         if index_of_sub_directory is None:
-            # There is no sub directory
+            # There is no sub directory (reset what an earlier path may have
+            # left behind)
             self._base_dir = directory
+            self._sub_dir = ""
+            self._sub_dir_chunks = []
+            self._sub_dir_time_resolution = None
         else:
             self._base_dir = directory[:index_of_sub_directory]
             self._sub_dir = directory[index_of_sub_directory:]
